@@ -428,7 +428,10 @@ int deregister_ctx_src(m_ctx_t *c, ev_src_t **src) {
 int register_mod_src(m_mod_t *mod, m_src_types type, const void *src_data,
                          m_src_flags flags, const void *userptr) {
     M_MOD_ASSERT(mod);
-    M_MOD_CONSUME_TOKEN(mod);
+    /* The module's own pubsub pipe is registered by the library while starting the module: it is not a (throttled) user action */
+    if (type != M_SRC_TYPE_PS) {
+        M_MOD_CONSUME_TOKEN(mod);
+    }
     M_SRC_ASSERT_PRIO_FLAGS();
     
     M_ASSERT(type < M_SRC_TYPE_END);
